@@ -2,11 +2,14 @@
 package main
 
 import (
+	"bytes"
 	"fmt"
+	"log"
 	"math/big"
 	"os"
 	"strconv"
 	"strings"
+	"sync"
 	"time"
 
 	"github.com/mmcloughlin/addchain"
@@ -724,11 +727,15 @@ func gen(tier string, r *lib.Rand, emit func(string)) {
 		for j := range cfgs {
 			cfgs[j] = totals[r.Intn(len(totals))]
 		}
-		for _, limit := range []int{1, k - 1, k, k + 1, 2 * k, 16, 64} {
+		for _, limit := range []int{1, 2, k - 1, k, k + 1, k + 3, 2 * k, 16, 64} {
 			if limit >= 1 {
-				emit(parallelCase(limit, n, cfgs))
+				emit(parallelCase(limit, 'd', n, cfgs))
 			}
 		}
+		// with a log writer under the harness's control: slow "done" lines, and the last "done"
+		// line held until Execute has returned (or gateTimeout) -- one gated run per list
+		emit(parallelCase([]int{1, 2, k, k + 3}[i%4], 's', n, cfgs))
+		emit(parallelCase([]int{k, k + 3, 1, 2, 64}[i%5], 'g', n, cfgs))
 	}
 
 	// rtl on the families
@@ -934,14 +941,14 @@ func run(c string) string {
 		cfg, n := parseExec(f)
 		return execute(cfg.alg, n)
 	case f[0] == "parallel" && len(f) == 5:
-		limit, n, cfgs := parseParallel(f)
-		return parallel(limit, n, cfgs)
+		limit, mode, n, cfgs := parseParallel(f)
+		return parallel(limit, mode, n, cfgs)
 	}
 	panic("unknown case " + c)
 }
 
 // parallel <limit> <n> <alg1;alg2;...> <observed1;observed2;...>
-func parseParallel(f []string) (int, *big.Int, []config) {
+func parseParallel(f []string) (int, byte, *big.Int, []config) {
 	cfgs := []config{}
 	for _, name := range strings.Split(f[3], ";") {
 		c, ok := byName[name]
@@ -950,12 +957,60 @@ func parseParallel(f []string) (int, *big.Int, []config) {
 		}
 		cfgs = append(cfgs, c)
 	}
-	return lib.Atoi(f[1]), lib.ParseHex(f[2]), cfgs
+	lm := strings.Split(f[1], ":")
+	mode := byte('d')
+	if len(lm) == 2 && len(lm[1]) == 1 {
+		mode = lm[1][0]
+	}
+	return lib.Atoi(lm[0]), mode, lib.ParseHex(f[2]), cfgs
+}
+
+// gateTimeout bounds how long the gated log writer holds a line.  On the unchanged code Execute
+// cannot return while a worker sits in the log call, so the gate always opens by this timeout.
+const gateTimeout = 200 * time.Millisecond
+
+// logWriter is the log destination handed to the executor (SetLogger) in the modes
+//
+//	's'  slow: every "done" line takes 3 ms to write;
+//	'g'  gated: the LAST "done" line (the total-th) is held until the harness has seen Execute
+//	     return and has copied the result slice, or until gateTimeout.
+//
+// An executor that signals completion before the result is stored (or before the "done" line is
+// written) returns while that worker is still held here, and the copy shows an empty slot.
+type logWriter struct {
+	mode  byte
+	total int
+	mu    sync.Mutex
+	done  int
+	open  chan struct{}
+}
+
+func (w *logWriter) Write(p []byte) (int, error) {
+	if bytes.HasPrefix(p, []byte("done")) {
+		w.mu.Lock()
+		w.done++
+		d := w.done
+		w.mu.Unlock()
+		switch w.mode {
+		case 's':
+			time.Sleep(3 * time.Millisecond)
+		case 'g':
+			if d == w.total {
+				select {
+				case <-w.open:
+				case <-time.After(gateTimeout):
+				}
+			}
+		}
+	}
+	return len(p), nil
 }
 
 // parallel runs exec.Parallel on the list and prints, per position, the name of the algorithm the
-// result slot carries and its result; a zero-valued slot prints as "- empty".
-func parallel(limit int, n *big.Int, cfgs []config) string {
+// result slot carries and its result; a zero-valued slot prints as "- empty".  The result slice is
+// copied at the moment Execute returns (before a gated log line is released) and the copy is
+// what is printed and judged.  mode: 'd' default (discarding) logger, 's', 'g' as above.
+func parallel(limit int, mode byte, n *big.Int, cfgs []config) string {
 	as := make([]alg.ChainAlgorithm, len(cfgs))
 	for i, c := range cfgs {
 		as[i] = c.alg
@@ -963,9 +1018,18 @@ func parallel(limit int, n *big.Int, cfgs []config) string {
 	return guarded(func() string {
 		p := exec.NewParallel()
 		p.SetConcurrency(limit)
+		var w *logWriter
+		if mode != 'd' {
+			w = &logWriter{mode: mode, total: len(as), open: make(chan struct{})}
+			p.SetLogger(log.New(w, "", 0))
+		}
 		rs := p.Execute(n, as)
-		out := make([]string, len(rs))
-		for i, r := range rs {
+		snap := append([]exec.Result(nil), rs...)
+		if w != nil {
+			close(w.open)
+		}
+		out := make([]string, len(snap))
+		for i, r := range snap {
 			switch {
 			case r.Algorithm == nil:
 				out[i] = "- empty"
@@ -979,19 +1043,28 @@ func parallel(limit int, n *big.Int, cfgs []config) string {
 	})
 }
 
-func parallelCase(limit int, n *big.Int, cfgs []config) string {
+func parallelCase(limit int, mode byte, n *big.Int, cfgs []config) string {
 	names, obs := make([]string, len(cfgs)), make([]string, len(cfgs))
 	for i, c := range cfgs {
 		names[i], obs[i] = c.alg.String(), observe(c, n)
 	}
-	return fmt.Sprintf("parallel %d %s %s %s", limit, lib.Hex(n), strings.Join(names, ";"), strings.Join(obs, ";"))
+	lim := strconv.Itoa(limit)
+	if mode != 'd' {
+		lim += ":" + string(mode)
+	}
+	return fmt.Sprintf("parallel %s %s %s %s", lim, lib.Hex(n), strings.Join(names, ";"), strings.Join(obs, ";"))
 }
 
 func oracleParallel(c, res string) string {
 	f := strings.Split(c, " ")
-	limit, n, cfgs := parseParallel(f)
+	limit, mode, n, cfgs := parseParallel(f)
 	orig := new(big.Int).Set(n)
-	again := parallel(limit, n, cfgs)
+	// second run (with the plain logger for the gated mode, which costs gateTimeout per run)
+	again2 := mode
+	if mode == 'g' {
+		again2 = 'd'
+	}
+	again := parallel(limit, again2, n, cfgs)
 	if n.Cmp(orig) != 0 {
 		return "target modified by the call"
 	}
